@@ -15,7 +15,8 @@ snapshots and committing calls:
                                                      and both slots are cleared (how the reference HEVM stub's vm.warp / vm.roll
                                                      reach later transactions) -> ok
   keccak <hex|->                                     -> <hex>
-  move <sender> <to> <value> <calldata|-> <tsdelta>  register a transaction the brute force may apply (timestamp += tsdelta first) -> ok
+  move <sender> <to> <value> <calldata|-> <tsdelta>  register a transaction the brute force may apply; time passes AFTER it (timestamp += tsdelta
+                                                     once it succeeded): the first transaction runs at the setUp timestamp -> ok
   probe <sender> <to> <calldata|->                   register a call evaluated (without commit) in every reached state -> ok
   clearmoves                                         forget registered moves and probes -> ok
   explore <depth> <fuel>                             breadth-first over all sequences of ≤ depth registered moves from the current
@@ -136,10 +137,11 @@ def stateKey (s : St) : String := s!"{showWorld s.w} ts={toHex s.timestamp} num=
 
 /-- outcome of one move from `s`: the next state if the call succeeded, else the revert data (if any) -/
 def applyMove (fuel : Nat) (s : St) (m : Move) : Option St × List Nat :=
-  let s1 := { s with timestamp := s.timestamp + m.tsdelta }
-  match runMessage s1.params fuel s1.w m.sender m.to m.value m.data with
+  match runMessage s.params fuel s.w m.sender m.to m.value m.data with
   | some (w', h) =>
-    if h.isSuccess then (some (syncCheats { s1 with w := { w' with transient := [], logs := [] } }), [])
+    if h.isSuccess then
+      let s2 := syncCheats { s with w := { w' with transient := [], logs := [] } }
+      (some { s2 with timestamp := s2.timestamp + m.tsdelta }, [])
     else (none, h.data)
   | none => (none, [])
 
